@@ -154,7 +154,10 @@ func worldC17(w *World) {
 	acl := map[string]*gaeBackend{} // reference, from successful admin calls
 	var steps []step
 	idents := func() (simplatform.Identity, string) {
-		switch t.Choice(7, "identity") {
+		switch t.Choice(8, "identity") {
+		case 7:
+			// an App Engine sign-in with the backend user's address, but no OAuth token
+			return simplatform.Identity{UserEmail: agents[t.Choice(3, "a2")]}, "signed-in user with an agent account's address (no OAuth)"
 		case 6:
 			w.Probe("oauth_token_without_email")
 			return simplatform.Identity{OAuthNoEmail: true}, "oauth account without an e-mail address"
@@ -540,6 +543,17 @@ func worldC18(w *World) {
 		}
 		backends = append(backends, b)
 	}
+	// one owner may have a great many registrations (stale ones stay registered until
+	// the clean-up removes them): more than a query page worth, sorting before the rest
+	nFill := 0
+	if t.Rare(1, 12, "manybackends") {
+		nFill = []int{501, 620}[t.Choice(2, "nfill")]
+		owner := []string{users[0], users[1], "allUsers"}[t.Choice(3, "fillowner")]
+		for i := 0; i < nFill; i++ {
+			backends = append(backends, &gaeBackend{BackendID: fmt.Sprintf("aa%04d", i), BackendUser: "agent@svc.example", EndUser: owner, PathPrefixes: []string{"/zzfill"}})
+		}
+		w.Probe("owner_with_more_than_500_backends")
+	}
 	// which agents poll, and how long ago relative to the user requests
 	type pollPlan struct {
 		polls bool
@@ -568,6 +582,8 @@ func worldC18(w *World) {
 		stored     string
 		round      int
 		tok        string
+		fixed      string // the backend that held the request, when that is known before the end
+		repeat     bool   // a second lookup with exactly the URL of an answered first one
 	}
 	// what the registrations looked like when a round of requests was issued
 	type roundState struct {
@@ -597,6 +613,9 @@ func worldC18(w *World) {
 			reqs = append(reqs, &ureq{tok: fmt.Sprintf("q%d", nReq+i), user: reqs[i].user, path: reqs[i].path, round: 1})
 		}
 	}
+	// with a deletion: the requests held by the doomed backend are answered first
+	// (200, no Cache-Control), and the same users then ask for exactly the same URLs
+	answerFirst := change == 2 && !lookupFault && t.Rare(1, 2, "answerfirst")
 	var lpMuSnap *sync.Mutex
 	snapshot := func(at time.Duration, lastPoll map[string]time.Duration) {
 		if lpMuSnap != nil {
@@ -609,12 +628,13 @@ func worldC18(w *World) {
 		}
 		rounds = append(rounds, roundState{backends: append([]*gaeBackend(nil), backends...), lastPoll: lp, start: at})
 	}
-	w.Sample = map[string]interface{}{"backends": backends, "plans": fmt.Sprintf("%+v", plans), "requests": fmt.Sprintf("%d", nReq)}
+	w.Sample = map[string]interface{}{"backends": backends[:nB], "filler_backends": nFill, "plans": fmt.Sprintf("%+v", plans), "requests": fmt.Sprintf("%d", nReq)}
 	w.K.Horizon = 3 * time.Hour
 	lastPoll := map[string]time.Duration{}
 	var reqStart time.Duration
 	// which backend holds each request: the stored entity's bytes contain the token
 	stored := map[string]string{}
+	storedID := map[string]string{}
 	collectStored := func() {
 		for b, ids := range requestEntities(plat) {
 			for _, id := range ids {
@@ -622,6 +642,7 @@ func worldC18(w *World) {
 				for _, q := range reqs {
 					if bytes.Contains(r.Body, []byte("tok="+q.tok+" ")) {
 						stored[q.tok] = b
+						storedID[q.tok] = id
 					}
 				}
 			}
@@ -781,6 +802,25 @@ func worldC18(w *World) {
 				}()
 			} else {
 				del := backends[delIdx]
+				if answerFirst {
+					for i := 0; i < nReq; i++ {
+						q := reqs[i]
+						if stored[q.tok] != del.BackendID {
+							continue
+						}
+						resp := []byte("HTTP/1.1 200 OK\r\nContent-Type: text/plain\r\nContent-Length: 14\r\n\r\nfirst answer\r\n")
+						if r := gaeCall(w, plat, "agent", simplatform.Identity{OAuthEmail: del.BackendUser}, "POST", "/agent/response", agentHdr(del.BackendID, storedID[q.tok]), resp); r.Status != 200 {
+							w.Violation("setup", "could not post a response: %d %s", r.Status, r.Body)
+						}
+						q.fixed = del.BackendID
+						delete(stored, q.tok)
+						twin := reqs[nReq+i]
+						twin.tok = q.tok
+						twin.repeat = true
+						w.Probe("answered_then_backend_deleted_then_same_url")
+					}
+					time.Sleep(time.Second)
+				}
 				if r := gaeCall(w, plat, "api", adminID, "DELETE", "/api/backends/"+del.BackendID, nil, nil); r.Status != 200 {
 					w.Violation("setup", "could not delete backend %s: %d %s", del.BackendID, r.Status, r.Body)
 				}
@@ -803,6 +843,9 @@ func worldC18(w *World) {
 				continue
 			}
 			got := stored[q.tok]
+			if q.fixed != "" {
+				got = q.fixed
+			}
 			backends, lastPoll, reqStart := rounds[q.round].backends, rounds[q.round].lastPoll, rounds[q.round].start
 			roundNote := ""
 			if q.round > 0 {
@@ -856,6 +899,11 @@ func worldC18(w *World) {
 				}
 			}
 			desc := fmt.Sprintf("user %s path %q%s; backends %s", q.user, q.path, roundNote, describeBackends(backends, lastPoll, reqStart))
+			if got == "" && q.repeat && len(allowed) > 0 && q.res.Status == 200 {
+				// (a live backend matches and the proxy answered from its response cache:
+				// routing is not observable here)
+				continue
+			}
 			if got == "" {
 				if q.res.Status != 404 {
 					w.Violation("routing", "a request that was not stored for any backend was not answered 404 | status %d; %s", q.res.Status, desc)
@@ -882,6 +930,9 @@ func worldC18(w *World) {
 func describeBackends(bs []*gaeBackend, lastPoll map[string]time.Duration, at time.Duration) string {
 	var s []string
 	for _, b := range bs {
+		if strings.HasPrefix(b.BackendID, "aa") {
+			continue // (filler registrations)
+		}
 		age := "never polled"
 		if lp, ok := lastPoll[b.BackendID]; ok {
 			age = fmt.Sprintf("polled %v before", at-lp)
@@ -930,6 +981,8 @@ func worldC19(w *World) {
 		cutFirstPost bool
 		urlTok       string
 		cacheControl string
+		// afterAll: issue this request only once all of these have returned
+		afterAll []*creq
 	}
 	var reqs []*creq
 	for i := 0; i < nC; i++ {
@@ -966,6 +1019,22 @@ func worldC19(w *World) {
 			y := &creq{tok: fmt.Sprintf("y%02d", i), user: c.user, method: "GET", path: c.path, urlTok: c.tok, respSize: 77, respond: true, after: c, cacheControl: c.cacheControl}
 			reqs = append(reqs, y)
 		}
+	}
+	// a backlog: a hundred and more requests of this backend were answered a moment
+	// ago and are still stored (the clean-up only removes them after minutes)
+	if !faulty && t.Rare(1, 15, "backlog") {
+		nb := []int{100, 104, 130}[t.Choice(3, "backlogsize")]
+		var pre []*creq
+		for i := 0; i < nb; i++ {
+			b := &creq{tok: fmt.Sprintf("b%03d", i), user: "alice@example.com", method: "POST", path: fmt.Sprintf("/backlog/%d", i), reqSize: 5, respSize: 10, respond: true}
+			b.urlTok = b.tok
+			pre = append(pre, b)
+		}
+		for _, c := range reqs {
+			c.afterAll = pre
+		}
+		reqs = append(pre, reqs...)
+		w.Probe("hundred_completed_requests_still_stored")
 	}
 	// the response an agent posts for c
 	respHead := func(c *creq, n int) string {
@@ -1033,10 +1102,17 @@ func worldC19(w *World) {
 	}
 	armBoth := 0
 	evictPct := []int{0, 0, 30, 100}[t.Choice(4, "evict")]
+	// memcache may be unavailable altogether: every read of it fails (not a miss); the
+	// datastore still has everything, so nothing may change for clients and agents
+	cacheDown := t.Rare(1, 5, "cachedown")
 	var fmu sync.Mutex
 	plat.Fault = func(r *simplatform.RPC) error {
 		fmu.Lock()
 		defer fmu.Unlock()
+		if cacheDown && r.Service == "memcache" && r.Method == "Get" {
+			w.K.Count("fault.memcache_read_error")
+			return errors.New("memcache unavailable")
+		}
 		if armBoth > 0 && r.Service == "datastore_v3" && r.Method == "Put" {
 			for _, k := range r.Keys {
 				if strings.HasPrefix(k, "/response:") || strings.HasPrefix(k, "/req:") {
@@ -1133,6 +1209,17 @@ func worldC19(w *World) {
 					for i := 0; i < 1200; i++ {
 						mu.Lock()
 						done := c.after.res != nil && c.after.res.Done
+						mu.Unlock()
+						if done {
+							break
+						}
+						time.Sleep(100 * time.Millisecond)
+					}
+				}
+				for _, a := range c.afterAll {
+					for i := 0; i < 3000; i++ {
+						mu.Lock()
+						done := a.res != nil && a.res.Done
 						mu.Unlock()
 						if done {
 							break
@@ -1283,6 +1370,9 @@ func worldC19(w *World) {
 	w.K.MaxSteps = 2000000
 	var desc []string
 	for _, c := range reqs {
+		if strings.HasPrefix(c.tok, "b") {
+			continue // (backlog)
+		}
 		desc = append(desc, fmt.Sprintf("%s %s %s req=%d resp=%d answered=%v after %v", c.user, c.method, c.path, c.reqSize, c.respSize, c.respond, c.respDelay))
 	}
 	var fdesc []string
@@ -1370,6 +1460,11 @@ func worldC19(w *World) {
 				if c.respond && c.postStatus == 200 && !faulty && c.respDelay < 25*time.Second {
 					w.Violation("relay", "a client got 504 although its response was posted in time | %s", name)
 				}
+				if !faulty && c.fetched == nil {
+					// (fault-free: the agent lists the backend's pending requests several
+					// times a second for the whole time the client waits)
+					w.Violation("relay", "the agent that kept asking for pending requests never obtained a stored client request (through the pending list and a fetch), and its client got 504 | %s", name)
+				}
 				w.Probe("timeout_504")
 			case st >= 500 || st == 404:
 				if !faulty {
@@ -1395,6 +1490,9 @@ func worldC19(w *World) {
 		}
 		if nC > 1 {
 			w.Probe("concurrent_clients")
+		}
+		if cacheDown {
+			w.Probe("memcache_unavailable")
 		}
 	})
 }
